@@ -541,6 +541,14 @@ class ScipyOptimizeDriver(Driver):
 
         self._scipy_optimize_result = result
 
+        # The last point evaluated by the optimizer is not necessarily the one it returns, so
+        # make sure that the model is left at the reported design.
+        x_final = getattr(result, 'x', None)
+        if x_final is not None and not np.array_equal(x_final, self._desvar_array_cache):
+            self._objfunc(np.array(x_final, dtype=float))
+            if self._exc_info is not None:
+                self._reraise()
+
         if hasattr(result, 'success'):
             self.fail = not result.success
             if self.fail:
